@@ -54,6 +54,28 @@ def drive_transformer(pkg, inst, text):
     except LarkError as e:
         raise ModelRaise("SyntaxError", f"{type(e).__name__}: {str(e)[:160]}")
     d = object.__getattribute__(inst, "__dict__")
+    if "_uc_class" in d:
+        # the transformer is a class hierarchy of the module's own (built as classes of the evaluated code): a callback is whatever
+        # callable attribute the class, one of its bases or a registration hook provides under the rule's name
+        from .userclass import _MISSING, _Method
+
+        def has_uc(name):
+            v = d["_uc_class"]._uc_lookup(name)
+            return v is not _MISSING and (isinstance(v, _Method) or callable(v)) and not name.startswith("_")
+
+        from lark import Token
+
+        def walk_uc(node):
+            if isinstance(node, Tree):
+                kids = [walk_uc(ch) for ch in node.children]
+                name = str(node.data)
+                return getattr(inst, name)(kids) if has_uc(name) else Tree(node.data, kids)
+            if isinstance(node, Token) and has_uc(node.type):
+                return getattr(inst, node.type)(node)
+            return node
+
+        res = walk_uc(tree)
+        return res.children if isinstance(res, Tree) else res
     rel, cls = d["_ri_rel"], d["_ri_cls"]
 
     cdef = pkg.repo.classes.get((rel, cls))
@@ -176,7 +198,14 @@ def prepare_parser_env(pkg):
         raise AnalysisError(f"anchor vanished: class {CLS_TRANSFORMER}", REL_PARSER)
     env.setdefault("super", lambda *a: None)
     env.setdefault("type", type)
-    env[CLS_TRANSFORMER] = repo_class(pkg, REL_PARSER, CLS_TRANSFORMER)
+    cdef = pkg.repo.classes[(REL_PARSER, CLS_TRANSFORMER)]
+    from .userclass import UserClass
+
+    own_bases = [b for b in cdef.bases if (REL_PARSER, ast.unparse(b).split(".")[-1]) in pkg.repo.classes]
+    if not ((own_bases or cdef.keywords) and isinstance(env.get(CLS_TRANSFORMER), UserClass)):
+        # (a transformer spread over base classes of the module / registered through class keywords stays the class the
+        # evaluator built from the whole hierarchy)
+        env[CLS_TRANSFORMER] = repo_class(pkg, REL_PARSER, CLS_TRANSFORMER)
     lark_cls = type("MLarkBound", (MLark,), {"_pkg": pkg})
     env["Lark"] = lark_cls
     env["Path"] = _PPath
@@ -328,7 +357,7 @@ class MPattern(Model):
 # reference Verilog expression subset: parser + evaluator (the oracle)
 # precedence (tightest first): ~ !  >  &  >  ^ ~^ ^~  >  |  >  ?:
 # ---------------------------------------------------------------------------
-TOK = _re.compile(r"\s*(1'b[01x]|1'h[01x]|~\^|\^~|[A-Za-z_][A-Za-z0-9_$]*|\\\S+|[~!&|^?:()])")
+TOK = _re.compile(r"\s*(1'[bBhHdDoO][01xX]|~\^|\^~|[A-Za-z_][A-Za-z0-9_$]*|\\\S+|[~!&|^?:()])")
 
 
 def tokenize(s):
@@ -361,10 +390,11 @@ class RefExpr:
     def cond(self):
         c = self.orx()
         if self.peek() == "?":
+            # right-associative: both branches may be conditionals themselves (`a ? b : c ? d : e` is `a ? b : (c ? d : e)`)
             self.eat()
-            a = self.orx()
+            a = self.cond()
             self.eat(":")
-            b = self.orx()
+            b = self.cond()
             return ("?", c, a, b)
         return c
 
@@ -393,7 +423,7 @@ class RefExpr:
     def unary(self):
         if self.peek() in ("~", "!"):
             self.eat()
-            return ("~", self.primary())
+            return ("~", self.unary())  # `~~a`, `!~a`
         return self.primary()
 
     def primary(self):
@@ -419,10 +449,8 @@ def eval_expr(e, env):
     k = e[0]
     if k == "v":
         n = e[1]
-        if n in ("1'b0", "1'h0"):
-            return False
-        if n in ("1'b1", "1'h1"):
-            return True
+        if len(n) == 4 and n[:2] == "1'" and n[2] in "bBhHdDoO" and n[3] in "01":
+            return n[3] == "1"
         return env[n]
     if k == "~":
         return not eval_expr(e[1], env)
